@@ -1202,4 +1202,48 @@ theorem writeRune_rel_same (b1 b2 : Buffer) (r : Int) (h : BRel b1 b2) (hm : b1.
 theorem brel_init : BRel Buffer.init Buffer.init :=
   ⟨inv_init, inv_init, rfl, rfl, rfl, pendRel_nil _⟩
 
+
+/-! ### The text outside envelopes is public too -/
+
+/-- The text outside envelopes, from the events. -/
+def safeText : List Ev → List Tok
+  | [] => []
+  | .out x :: r => .b x :: safeText r
+  | _ :: r => safeText r
+
+theorem dropEnv_eq_safeText (t : List Tok) :
+    (scanWFFrom false t = some false → dropEnvAux none t = safeText (abs .closed t)) ∧
+    (∀ acc, scanWFFrom true t = some false → dropEnvAux (some acc) t = safeText (abs .openEmpty t)) ∧
+    (∀ acc, scanWFFrom true t = some false → dropEnvAux (some acc) t = safeText (abs .openFull t)) := by
+  induction t with
+  | nil => simp [scanWFFrom, dropEnvAux, abs, safeText]
+  | cons x r ih =>
+    refine ⟨?_, ?_, ?_⟩
+    · intro h
+      cases x with
+      | s => simp only [scanWFFrom] at h; simp [dropEnvAux, abs, absTok, stStep, safeText, ih.2.1 [] h]
+      | e => simp [scanWFFrom] at h
+      | b y => simp only [scanWFFrom] at h; simp [dropEnvAux, abs, absTok, stStep, safeText, ih.1 h]
+    · intro acc h
+      cases x with
+      | s => simp [scanWFFrom] at h
+      | e => simp only [scanWFFrom] at h; simp [dropEnvAux, abs, absTok, stStep, safeText, ih.1 h]
+      | b y => simp only [scanWFFrom] at h; simp [dropEnvAux, abs, absTok, stStep, safeText, ih.2.2 _ h]
+    · intro acc h
+      cases x with
+      | s => simp [scanWFFrom] at h
+      | e => simp only [scanWFFrom] at h; simp [dropEnvAux, abs, absTok, stStep, safeText, ih.1 h]
+      | b y => simp only [scanWFFrom] at h; simp [dropEnvAux, abs, absTok, stStep, safeText, ih.2.2 _ h]
+
+/-- Two well-formed redactables with the same events have the same text outside envelopes. -/
+theorem dropEnv_eq_of_brel (b1 b2 : Buffer) (h : BRel b1 b2) :
+    dropEnv b1.redactableBytes = dropEnv b2.redactableBytes := by
+  have ⟨f1, _, _⟩ := finalize_full b1 h.i1
+  have ⟨f2, _, _⟩ := finalize_full b2 h.i2
+  have e := finalize_rel b1 b2 h
+  unfold dropEnv Buffer.redactableBytes dropEnvT
+  rw [(dropEnv_eq_safeText _).1 (scanWF_of_scan _ _ _ f1.sc), (dropEnv_eq_safeText _).1 (scanWF_of_scan _ _ _ f2.sc)]
+  unfold evB evT at e
+  rw [e]
+
 end Redact
